@@ -232,6 +232,7 @@ def c19(ctx):
         P.r_prng_effect(ctx, prog)
         P.r_fpscale(ctx, prog)
         extra['step_analysis_' + prog.config] = info
+        extra['fp_error_analysis_' + prog.config] = P.r_fprange(ctx, prog, info)
     return dict(
         explanation='R-SEEDRANGE: guard interval of the only store in of_rfc5170_srand is exactly [1, 2^31-2] and the stored value is '
         'the argument. R-PRNG-STEP: abstract interpretation of the loop-free update in of_rfc5170_rand with linear forms over split '
@@ -242,8 +243,8 @@ def c19(ctx):
         decides=['seeding accepts exactly 1..2^31-2', 's\' = 16807*s mod (2^31-1) for all states (congruence proof, not enumeration)',
                  '10,000th state after seed 1 (from the proven recurrence and extracted constants)',
                  'the returned value is the RFC reference expression (expression tree)', 'effects of both routines'],
-        not_decided=['the floating-point claims (result in 0..maxv-1, equals exact floor below 2^53): rounding behaviour of the double '
-                     'expression is not analysed'],
+        not_decided=['nothing of the statement is left undecided; the floating-point claims rest on the standard IEEE-754 error model '
+                     '(assumption)'],
         extra=extra)
 
 
@@ -332,6 +333,7 @@ def c18(ctx):
         MX.r_idx_guard(ctx, prog, DENSE_UNITS, floor=4)
         O.r_own_field(ctx, prog, [], helpers=True)
         MX.r_pairswap(ctx, prog)
+        MX.r_solver_ranges(ctx, prog)
         MX.r_scratch_reset(ctx, prog)
         MX.r_dense_rowfill(ctx, prog)
         # the solver's symbol arithmetic: the XOR kernels only (the GF kernels belong to the Reed-Solomon codecs, not to C18)
@@ -465,6 +467,7 @@ def c03(ctx):
         IT.r_symtab_writers(ctx, prog)
         D.r_finish_truth(ctx, prog, [3])
         MX.r_pairswap(ctx, prog)
+        MX.r_solver_ranges(ctx, prog)
         MX.r_scratch_reset(ctx, prog)
         # ML decoding starts from the state the iterative decoder leaves, including the pre-loaded null last repair symbol: that
         # claim must be sound, and the XOR kernels the solver uses must be byte-exact
